@@ -9,7 +9,7 @@ R: the macro machine (command, then run to quiescence) prints one schedule per e
    semantics), not by the prediction.
 V: -race stress, callbacks take an atomic sequence number inside the critical section; the
    recorded order is validated by the same trace spec."""
-import random
+import os
 import re
 
 from lib import vk
@@ -18,9 +18,10 @@ PKG = "cmd/zoekt-sourcegraph-indexserver"
 FILES = ["c31_indexmutex_test.go"]
 
 
-def consts(n, names, depth, go, macro, emit):
+def consts(n, names, depth, mdepth, modes, emit, viewret="FALSE"):
     return {"N": n, "Names": "{%s}" % ",".join('"%s"' % x for x in names), "MaxDepth": depth,
-            "Go": go, "Macro": macro, "Emit": emit}
+            "MacroDepth": mdepth, "Modes": "{%s}" % ",".join('"%s"' % x for x in modes),
+            "Emit": emit, "ViewRet": viewret}
 
 
 def reject_sig(r, ev):
@@ -36,114 +37,127 @@ def reject_sig(r, ev):
 
 
 def run(ctx):
-    # ---------------------------------------------------------------- M
-    cfgs = [(3, ["a", "b"], ctx.pick(6, 8))]
+    # ------------------------------------------------ M (modes gen, go) and R generation (mode macro)
+    # one TLC run explores the three machines (mode is chosen in Init); workers=1 keeps the
+    # breadth-first order, hence the printed histories, deterministic
+    runs = [(3, ["a", "b"], ctx.pick(6, 8), ctx.pick(7, 9), ["gen", "go", "macro"], ctx.pick("FALSE", "TRUE"))]
     if ctx.thorough:
-        cfgs.append((4, ["a", "b"], 7))
-    first = True
-    for n, names, depth in cfgs:
-        for go in ("FALSE", "TRUE"):
-            res = ctx.model_check("IndexMutex", "IndexMutex_mc.cfg", timeout=1200, coverage=first,
-                                  defines=consts(n, names, depth, go, "FALSE", "FALSE"))
-            if first:
-                zero = [z for z in res.coverage_zero() if "IndexMutex" in z]
-                ctx.notes.append("coverage: %d locations with count 0 in the fine-grained general model" % len(zero))
-                first = False
-    # ---------------------------------------------------------------- R: schedules
-    gen = [(3, ["a", "b"], ctx.pick(7, 9))]
-    if ctx.thorough:
-        gen += [(4, ["a", "b"], 7), (3, ["a", "b", "c"], 7)]
+        runs += [(4, ["a", "b"], 7, 7, ["gen", "go", "macro"], "FALSE"), (3, ["a", "b", "c"], 6, 7, ["macro"], "FALSE")]
     scripts = []
-    for n, names, depth in gen:
-        res = ctx.tlc("IndexMutex", "IndexMutex_mc.cfg", timeout=1200, workers=1,
-                      defines=consts(n, names, depth, "TRUE", "TRUE", "TRUE"))
-        if not res.ok:
-            raise vk.Inconclusive("schedule generation failed (%s): %s" % (res.invariant or res.error, res.log))
+    for i, (n, names, depth, mdepth, modes, viewret) in enumerate(runs):
+        cov = i == 0 and bool(os.environ.get("VERIF_C31_COVERAGE"))
+        res = ctx.model_check("IndexMutex", "IndexMutex_mc.cfg", timeout=1800, workers=1, coverage=cov,
+                              defines=consts(n, names, depth, mdepth, modes, "TRUE", viewret))
+        if cov:
+            ctx.log("coverage: locations with count 0: %s" % res.coverage_zero())
         scripts += res.printed("SCRIPT")
     if len(scripts) < 100:
         raise vk.Inconclusive("too few schedules generated: %d" % len(scripts))
-    cap_ = ctx.pick(1500, 20000)
-    if len(scripts) > cap_:
-        random.Random(ctx.seed).shuffle(scripts)
-        scripts = scripts[:cap_]
-    ctx.log("schedules from TLC: %d" % len(scripts))
+    n_bfs = len(scripts)
+    ctx.log("schedules from TLC: %d" % n_bfs)
     inp = ctx.path("scripts.ndjson")
     vk.write_ndjson(inp, scripts)
     ctx.sample({"schedule": [(s["c"], s["p"], s["k"], s["n"]) for s in scripts[len(scripts) // 2]["steps"]]})
 
-    total_events = 0
-    nontrivial = 0
-    stats = {}
-    for name, run_, env, race in (("replay", "^TestVerif_C31_Replay$", {"VERIF_IN": inp}, False),
+    # ---------------------------------------------------------------- run both drivers
+    events = []          # concatenated trace: replay part, then stress part
+    part = []            # driver name per event
+    # "random": history-dependent coverage -- seeded random command walks chosen by the driver from the
+    # observed state (no prediction), more goroutines/names than the exhaustive machine, same validation
+    rnd = ctx.path("trace_random.ndjson")
+    for name, run_, env, race in (("replay", "^TestVerif_C31_(Replay|Random)$", {"VERIF_IN": inp, "VERIF_OUT2": rnd}, False),
                                   ("stress", "^TestVerif_C31_Stress$", {}, True)):
         rc, out, trace = ctx.driver(PKG, run_, FILES, env=env, out="trace_%s.ndjson" % name, timeout=1500, race=race)
         if rc != 0:
             m = re.search(r"fatal error: (sync: [^\n]*)", out)
             if m and "index_mutex.go" in out:
                 ctx.violation("C31:fatal:" + re.sub(r"\W+", "-", m.group(1)), {"driver": name, "output": out[-2500:]})
-                continue
-            if "WARNING: DATA RACE" in out and "index_mutex.go" in out:
+            elif "WARNING: DATA RACE" in out and "index_mutex.go" in out:
                 ctx.violation("C31:race", {"driver": name, "output": out[out.index("WARNING: DATA RACE"):][:2500]})
-                continue
-            raise vk.Inconclusive("driver %s failed:\n%s" % (name, out[-3000:]))
-        events = vk.read_ndjson(trace)
-        acc, rej = ctx.validate_trace("Trace_IndexMutex", "Trace_IndexMutex.cfg", trace, name="tlc_" + name,
-                                      timeout=1800)
-        total_events += len(events)
-        start = [i for i, e in enumerate(events) if e["ev"] == "reset"]
-        hist_of = {}
-        h = -1
-        for i, e in enumerate(events):
-            if e["ev"] == "reset":
-                h += 1
-            hist_of[i] = h
-        bad = set()
-        for r in rej:
-            i = r["line"] - 1
-            e = events[i]
-            hno = hist_of[i]
-            if r["why"] == "driver":
-                raise vk.Inconclusive("harness error: command not applicable at line %d of %s" % (r["line"], trace))
-            bad.add(hno)
-            if e["ev"] == "step":
-                hist = [(x["c"], x["p"], x["k"], x["n"]) for x in events[start[hno]:i + 1] if x["ev"] == "step"]
-                det = {"driver": name, "line": r["line"], "why": r["why"], "goroutine": r.get("who"),
-                       "schedule": hist, "observed": {k: e[k] for k in ("ph", "ret", "running", "probe", "where")},
-                       "admissible": r["expected"]}
+            elif name == "stress" and "did not finish" in out:
+                # not a verdict by itself; it only matters if the gated replay found nothing
+                ctx.notes.append("stress run did not finish")
+                stuck = out[-800:]
             else:
-                det = {"driver": name, "line": r["line"], "why": r["why"], "event": e, "context": r["expected"],
-                       "before": events[max(start[hno], i - 6):i]}
-            ctx.violation(reject_sig(r, e), det)
-        ctx.traces_validated += len(start) - len(bad)
-        if name == "replay":
-            steps = [e for e in events if e["ev"] == "step"]
-            # a step is non-trivial when some goroutine is blocked or was skipped in its observation
-            nontrivial += sum(1 for e in steps if "wait" in e["ph"] or "false" in e["ret"])
-            stats["replay_steps"] = len(steps)
-            stats["replay_steps_with_blocked_goroutine"] = sum(1 for e in steps if "wait" in e["ph"])
-            stats["replay_skips_observed"] = sum(1 for e in steps if e["c"] == "start" and e["ret"][e["p"] - 1] == "false")
-            stats["unpredicted_steps"] = sum(1 for e in events if e["ev"] == "note" and e["what"] == "unpredicted")
-            stats["diverged_schedules"] = sum(1 for e in events if e["ev"] == "note" and e["what"] == "diverged")
-            if stats["replay_steps_with_blocked_goroutine"] == 0:
-                raise vk.Inconclusive("replay never observed a blocked goroutine: harness is vacuous")
-            w = [e for e in steps if "wait" in e["ph"]]
-            ctx.sample({"observation_with_blocked": {k: w[len(w) // 2][k] for k in ("c", "p", "k", "n", "ph", "ret", "where")}})
+                raise vk.Inconclusive("driver %s failed:\n%s" % (name, out[-3000:]))
+            continue
+        for nm, tp in ((name, trace),) + ((("random", rnd),) if name == "replay" else ()):
+            ev = vk.read_ndjson(tp)
+            events += ev
+            part += [nm] * len(ev)
+    if not events:
+        if ctx.violations:
+            return ctx.finish(0, 0, "drivers aborted", extra={})
+        raise vk.Inconclusive("no trace recorded")
+    both = ctx.path("trace_all.ndjson")
+    vk.write_ndjson(both, events)
+    acc, rej = ctx.validate_trace("Trace_IndexMutex", "Trace_IndexMutex.cfg", both, timeout=3000)
+
+    start = [i for i, e in enumerate(events) if e["ev"] == "reset"]
+    hist_of = []
+    h = -1
+    for e in events:
+        if e["ev"] == "reset":
+            h += 1
+        hist_of.append(h)
+    bad = set()
+    for r in rej:
+        i = r["line"] - 1
+        e = events[i]
+        hno = hist_of[i]
+        if r["why"] == "driver":
+            raise vk.Inconclusive("harness error: command not applicable at line %d of %s" % (r["line"], both))
+        bad.add(hno)
+        if e["ev"] == "step":
+            hist = [(x["c"], x["p"], x["k"], x["n"]) for x in events[start[hno]:i + 1] if x["ev"] == "step"]
+            det = {"driver": part[i], "line": r["line"], "why": r["why"], "goroutine": r.get("who"),
+                   "schedule": hist, "observed": {k: e[k] for k in ("ph", "ret", "running", "probe", "where")},
+                   "admissible": r["expected"]}
         else:
-            enters = [e for e in events if e["ev"] == "enter"]
-            stats["stress_bodies"] = len(enters)
-            stats["stress_skips"] = sum(1 for e in events if e["ev"] == "cend" and e["ret"] == "false")
-            stats["stress_global_bodies"] = sum(1 for e in enters if e["k"] == "global")
-            nontrivial += stats["stress_skips"] + stats["stress_global_bodies"]
-            if stats["stress_skips"] == 0 or stats["stress_global_bodies"] == 0:
-                raise vk.Inconclusive("stress saw no skip / no global operation: vacuous")
+            det = {"driver": part[i], "line": r["line"], "why": r["why"], "event": e, "context": r["expected"],
+                   "before": events[max(start[hno], i - 6):i]}
+        ctx.violation(reject_sig(r, e), det)
+    ctx.traces_validated += len(start) - len(bad)
+    if ctx.violations:
+        cnt = {}
+        for r in rej:
+            k = (part[r["line"] - 1], reject_sig(r, events[r["line"] - 1]))
+            cnt[k] = cnt.get(k, 0) + 1
+        ctx.log("rejections by driver/signature: %s" % sorted(cnt.items()))
+
+    stats = {}
+    steps = [e for e in events if e["ev"] == "step"]
+    blocked = [e for e in steps if "wait" in e["ph"]]
+    # a step is non-trivial when some goroutine is blocked or was skipped in its observation
+    nontrivial = sum(1 for e in steps if "wait" in e["ph"] or "false" in e["ret"])
+    stats["replay_steps"] = len(steps)
+    stats["replay_steps_with_blocked_goroutine"] = len(blocked)
+    stats["replay_skips_observed"] = sum(1 for e in steps if e["c"] == "start" and e["ret"][e["p"] - 1] == "false")
+    stats["unpredicted_steps"] = sum(1 for e in events if e["ev"] == "note" and e["what"] == "unpredicted")
+    stats["diverged_schedules"] = sum(1 for e in events if e["ev"] == "note" and e["what"] == "diverged")
+    enters = [e for e in events if e["ev"] == "enter"]
+    stats["stress_bodies"] = len(enters)
+    stats["stress_skips"] = sum(1 for e in events if e["ev"] == "cend" and e["ret"] == "false")
+    stats["stress_global_bodies"] = sum(1 for e in enters if e["k"] == "global")
+    nontrivial += stats["stress_skips"] + stats["stress_global_bodies"]
+    if blocked:
+        ctx.sample({"observation_with_blocked": {k: blocked[len(blocked) // 2][k]
+                                                 for k in ("c", "p", "k", "n", "ph", "ret", "where")}})
+    if not ctx.violations:
+        if "stress run did not finish" in ctx.notes:
+            raise vk.Inconclusive("stress run did not finish and nothing else was observed:\n" + stuck)
+        if not blocked or not stats["replay_skips_observed"]:
+            raise vk.Inconclusive("replay never observed a blocked goroutine / a skip: harness is vacuous")
+        if stats["stress_skips"] == 0 or stats["stress_global_bodies"] == 0:
+            raise vk.Inconclusive("stress saw no skip / no global operation: vacuous")
     ctx.assumptions += [
         "quiescence is read from the runtime's goroutine dump (all process goroutines parked twice in a row)",
         "sync.RWMutex semantics (go mode) is only used to predict; verdicts use the general rw-lock semantics",
     ]
     return ctx.finish(
-        evaluations=total_events, distinct_nontrivial=nontrivial,
+        evaluations=len(events), distinct_nontrivial=nontrivial,
         rule="schedules = one per transition of the macro machine of IndexMutex.tla (command history of the state + "
-             "command; each followed by a validated drain); evaluations = recorded observations/events validated by "
-             "Trace_IndexMutex.tla; non-trivial = replay observations with a blocked goroutine or a skipped With, "
-             "plus skips and global bodies seen in the -race stress",
-        exhaustive=False, extra=dict(stats, schedules_from_tlc=len(scripts)))
+             "command) + seeded random command walks over 3-5 goroutines, each followed by a validated drain; evaluations = "
+             "recorded observations/events validated by Trace_IndexMutex.tla; non-trivial = replay observations with "
+             "a blocked goroutine or a skipped With, plus skips and global bodies seen in the -race stress",
+        exhaustive=False, extra=dict(stats, schedules_from_tlc=len(scripts), per_transition=n_bfs))
